@@ -1244,3 +1244,75 @@ func rtErrorStable(a *aggregator, v *rtView) {
 		fmt.Sprintf("%d histories (a failed parse, then a shorter, longer or empty input on the same parser, succeeding or failing): the kept error value gives the same message before and after, without a panic", n),
 		strings.Join(bad, "; "))
 }
+
+// addSemantics: tokens.Add evaluated on token lists of length 0..3 (with and
+// without spare capacity) and every index 0..length: below the length the slot
+// is overwritten and nothing else changes, at the length the token is appended.
+// That is what restores after backtracking rely on.
+func addSemantics(v *rtView) (bad []string, und string, n int) {
+	it := newInstInterp(v.in)
+	fd := it.declOf("tokens.Add")
+	tokensT, tokenT := it.namedType("tokens"), it.namedType("token")
+	if fd == nil || tokensT == nil || tokenT == nil {
+		return nil, "tokens.Add / its types not found", 0
+	}
+	mk := func(rule, b, e int64) *Obj {
+		t := it.newObj(tokenT)
+		t.field("pegRule").v, t.field("begin").v, t.field("end").v = rule, b, e
+		return t
+	}
+	show := func(s *SliceV) string {
+		var out []string
+		if s != nil {
+			for _, e := range s.elems {
+				out = append(out, tokStr(e))
+			}
+		}
+		return "[" + strings.Join(out, " ") + "]"
+	}
+	for length := 0; length <= 3; length++ {
+		for spare := 0; spare <= 2; spare++ {
+			for idx := 0; idx <= length; idx++ {
+				func() {
+					defer func() {
+						if p := recover(); p != nil {
+							switch x := p.(type) {
+							case nilDeref:
+								bad = append(bad, fmt.Sprintf("Add at index %d of %d tokens dereferences nil at %s", idx, length, x.pos))
+							case goPanic:
+								bad = append(bad, fmt.Sprintf("Add at index %d of %d tokens panics (%s at %s)", idx, length, x.msg, x.pos))
+							case undecided:
+								und = x.msg
+							default:
+								panic(p)
+							}
+						}
+					}()
+					elems := make([]Value, 0, length+spare)
+					var want []string
+					for i := 0; i < length; i++ {
+						elems = append(elems, mk(int64(i+1), int64(i), int64(i+1)))
+						want = append(want, fmt.Sprintf("%d[%d,%d]", i+1, i, i+1))
+					}
+					tk := it.newObj(tokensT)
+					tk.field("tree").v = &SliceV{elems: elems}
+					it.callDecl(fd, tk, int64(9), int64(7), int64(8), int64(idx))
+					n++
+					if idx < length {
+						want[idx] = "9[7,8]"
+					} else {
+						want = append(want, "9[7,8]")
+					}
+					got, _ := tk.field("tree").v.(*SliceV)
+					if g := show(got); g != "["+strings.Join(want, " ")+"]" {
+						bad = append(bad, fmt.Sprintf("Add(9, 7, 8, %d) on %d tokens (capacity %d) leaves %s, expected [%s]", idx, length, length+spare, g, strings.Join(want, " ")))
+					}
+				}()
+				if und != "" {
+					return nil, und, n
+				}
+			}
+		}
+	}
+	return uniq(bad), "", n
+}
